@@ -228,7 +228,7 @@ func runCase(class string, iv initv, ops []op) {
 	stA, phA, mdA := a.VerifState()
 	ra, rs := a.VerifRates()
 	dump := append(append([]byte{}, stA...), byte(phA), byte(mdA), byte(ra), byte(rs))
-	if !ipanic && !panicked {
+	if !ipanic { // after a wrong-mode panic neither the object nor the two oracles have moved
 		stB, _, _ := b.VerifState()
 		if !bytes.Equal(stA, stB) {
 			fail("peers-out-of-sync", "final states of the two peers differ")
